@@ -37,3 +37,60 @@ Inductive operand :=
 | ONet (ver v p : Z)         (* IPNetwork: version, _value (host bits kept), _prefixlen *)
 | ORng (ver s e : Z)         (* IPRange / IPGlob: version, _start._value, _end._value *)
 | OOther.                    (* no BaseIP object *)
+
+(* ---- added for netaddr/contrib/subnet_splitter.py (harness/gen/pysrc.py, third round) ---- *)
+
+(* the truth value of a list: `if l:` / `if not l:` *)
+Definition py_nonempty {A} (l : list A) : bool := match l with [] => false | _ :: _ => true end.
+
+(* equality (and hashing) of IPNetwork objects as set elements: IPNetwork.__eq__ / __hash__ compare key() =
+   (version, first, last) *)
+Definition net_key_eqb (a b : net) : bool :=
+  (nver a =? nver b)
+  && (net_first (width (nver a)) (nval a) (nplen a) =? net_first (width (nver b)) (nval b) (nplen b))
+  && (net_last (width (nver a)) (nval a) (nplen a) =? net_last (width (nver b)) (nval b) (nplen b)).
+
+(* A Python set is represented by the list of its elements, without duplicates under `eqb`, in an order that stands
+   for the (unspecified) iteration order; new elements go to the end.  s.remove(x): KeyError if no element equals x *)
+Fixpoint py_set_remove {A} (eqb : A -> A -> bool) (s : list A) (x : A) : outcome (list A) :=
+  match s with
+  | [] => Raise KeyError
+  | y :: r => if eqb x y then Ok r else do r' <- py_set_remove eqb r x; Ok (y :: r')
+  end.
+(* adding one element: an element equal to one already present is dropped (the one present stays) *)
+Definition py_set_add {A} (eqb : A -> A -> bool) (s : list A) (x : A) : list A :=
+  if existsb (eqb x) s then s else s ++ [x].
+(* set(l) for a list l *)
+Definition py_set_of_list {A} (eqb : A -> A -> bool) (l : list A) : list A := fold_left (py_set_add eqb) l [].
+(* s.union(t): a new set, the elements of s first *)
+Definition py_set_union {A} (eqb : A -> A -> bool) (s t : list A) : list A := fold_left (py_set_add eqb) t s.
+
+(* sorted(xs, key=k, reverse=True): stable (elements with equal keys keep their relative order), descending by key;
+   insertion sort from the right, an element goes in front of the first one whose key is not larger *)
+Fixpoint py_ins_desc {A} (key : A -> Z) (x : A) (l : list A) : list A :=
+  match l with
+  | [] => [x]
+  | y :: r => if key y <=? key x then x :: l else y :: py_ins_desc key x r
+  end.
+Definition py_sorted_desc {A} (key : A -> Z) (l : list A) : list A := fold_right (py_ins_desc key) [] l.
+
+(* [y for x in xs for y in f(x)]: the lists f(x) one after the other; f(x) is evaluated in order, the first exception wins *)
+Fixpoint py_flat_map_o {A B} (f : A -> outcome (list B)) (l : list A) : outcome (list B) :=
+  match l with
+  | [] => Ok []
+  | x :: r => do here <- f x; do rest <- py_flat_map_o f r; Ok (here ++ rest)
+  end.
+
+(* ---- added for IPListMixin.__getitem__ (third round) ---- *)
+(* try: <body> / except E1: raise E2(..): an exception of class E1 leaving the body is replaced by E2.  E1 is compared by
+   class: none of the exception classes of Base/PyVal.v derives from another one (AddrFormatError, AddrConversionError and
+   NotRegisteredError derive from Exception; OutOfFuel and Unsupported are modelling devices, never caught). *)
+Definition py_except {A} (e1 e2 : exn) (o : outcome A) : outcome A :=
+  match o with
+  | Raise e => if exn_eqb e e1 then Raise e2 else Raise e
+  | Ok a => Ok a
+  end.
+
+(* ---- added for the classification predicates (third round) ---- *)
+(* the truth value of the result of a method that returns a bool on some paths and falls off its end (None) on the others *)
+Definition py_truthy (o : option bool) : bool := match o with Some b => b | None => false end.
